@@ -33,11 +33,20 @@ class RawClient:
         self.replies = 0
         self.buf = b""
 
-    async def connect(self, opener):
+    async def connect(self, opener, hello=True):
         self.reader, self.writer = await opener()
         self.open = True
-        self.writer.write(json.dumps({"terminal_width": 80}).encode() + b"\n")
-        await self.writer.drain()
+        self.hello = False
+        if hello:
+            await self.say_hello()
+
+    async def say_hello(self):
+        self.hello = True
+        try:
+            self.writer.write(json.dumps({"terminal_width": 80}).encode() + b"\n")
+            await self.writer.drain()
+        except (ConnectionError, OSError):
+            pass
 
     async def poll(self):
         """Non-blocking: consume whatever arrived; count complete lines."""
@@ -219,6 +228,19 @@ async def scenario(kind, labels, expected, clients_kind, repo_src):
                         clients.append(c)
                     except (ConnectionError, FileNotFoundError, OSError, asyncio.TimeoutError):
                         refused += 1
+            elif w[0] == "open":
+                # connects, but keeps its handshake line for later: its session waits meanwhile
+                c = RawClient()
+                try:
+                    await asyncio.wait_for(c.connect(opener, hello=False), STEP_TIMEOUT)
+                    clients.append(c)
+                except (ConnectionError, FileNotFoundError, OSError, asyncio.TimeoutError):
+                    refused += 1
+            elif w[0] == "hello":
+                j = int(w[1])
+                if j < len(clients) and clients[j].open and clients[j].kind == "raw" \
+                        and getattr(clients[j], "hello", True) is False and clients[j].reader is not None:
+                    await clients[j].say_hello()
             elif w[0] == "connectbad":
                 # garbage instead of the handshake (or, every other time, an immediate hang-up)
                 c = RawClient()
@@ -238,7 +260,7 @@ async def scenario(kind, labels, expected, clients_kind, repo_src):
                     refused += 1
             elif w[0] == "send":
                 j = int(w[1])
-                if j < len(clients) and clients[j].open:
+                if j < len(clients) and clients[j].open and getattr(clients[j], "hello", True):
                     await clients[j].send("num-running")
             elif w[0] == "leave":
                 j = int(w[1])
